@@ -33,10 +33,11 @@ MANIFEST = {
     'technique': 'explicit-state BFS over request histories on the real application (fresh import per replay), states '
                  'deduplicated by a canonical walk of all retained objects; per-transition differential oracle against a '
                  'fresh process; fixpoint = bounded retained state; k^N liveness runs with weak references',
-    'text': 'All histories over 32 request kinds are served in every order up to depth 3 (quick) / 4 (thorough; plus BFS with state merging to '
-            'depth 6); every served response is compared with the response of the same request on a freshly '
+    'text': 'Over 37 request kinds: all histories of 2 requests and all of 3 whose first two belong to the 19 kinds that leave something '
+            'behind (quick); all of 3, all of 4 whose first three are such kinds, and BFS with state merging to '
+            'depth 6 (thorough); every served response is compared with the response of the same request on a freshly '
             'imported framework; each kind is repeated N times and the live per-request objects are counted.',
-    'note': 'Bounds: 15 request kinds, depth as stated, N=2000 (thorough 5000). Trusted: CPython gc/weakref, the canonicaliser.',
+    'note': 'Bounds: 37 request kinds, depth as stated, N=2000 (thorough 5000). Trusted: CPython gc/weakref, the canonicaliser.',
 }
 
 _canon = Canon(tb=True)
@@ -83,6 +84,13 @@ KINDS = [
                                        'ctype': 'multipart/form-data; boundary=BND'}),
     # an upload whose boundary is different at every repetition (clients pick random boundaries)
     ('uploadbvar', 'POST', '/upinfo', {'body': MP_BARE.replace(b'BND', b'BND{i}'), 'ctype': 'multipart/form-data; boundary=BND{i}'}),
+    # static routes; a route hook below /acct adds a keyword argument for the handler through request.url_args
+    ('acct', 'GET', '/acct/settings', {'headers': {'X-User': 'alice'}}),
+    ('about', 'GET', '/about', {}),
+    ('echo', 'GET', '/echo', {}),
+    # a status code without a registered phrase: once with the handler's own phrase, once as a bare number
+    ('st599s', 'GET', '/st599s', {'qs': 'why=backend-db7-refused'}),
+    ('st599n', 'GET', '/st599n', {}),
     # a static file served plainly, with a Range and with If-Modified-Since; literal and wildcard sibling routes
     ('static', 'GET', '/static/f.txt', {}),
     ('static-range', 'GET', '/static/f.txt', {'headers': {'Range': 'bytes=2-5'}}),
@@ -158,6 +166,23 @@ def fresh_app():
         app.response.set_cookie('sess', s, secret=SESSION_SECRET)
         return 'session:' + repr(sorted(s.items()))
     app.route('/upinfo', 'POST', upinfo)
+
+    def acct_hook(prefix):
+        app.request.url_args['user'] = app.request.headers.get('X-User', '?')
+    app.on_route('/acct', acct_hook)
+    app.route('/acct/settings', 'GET', lambda **kw: 'settings ' + repr(sorted(kw.items())))
+    app.route('/about', 'GET', lambda: 'about us')
+    app.route('/echo', 'GET', lambda **kw: 'echo ' + repr(sorted(kw.items())))
+
+    def st599s():
+        app.response.status = '599 ' + app.request.query.get('why', 'no reason')
+        return 'refused'
+
+    def st599n():
+        app.response.status = 599
+        return 'refused'
+    app.route('/st599s', 'GET', st599s)
+    app.route('/st599n', 'GET', st599n)
     app.route('/json', 'POST', lambda: repr(app.request.json))
     app.route('/session', 'GET', session)
     app.route('/ok', 'GET', ok)
@@ -301,17 +326,34 @@ def solo(k):
     return _solo[k]
 
 
+# the kinds that leave something behind (set a status / header / cookie, fail, carry a body, touch a cache): longer histories start
+# with these; the LAST request of a history is always any kind
+CORE = ['set', 'raise', 'badpath', '400', '413', '500', '404json', '413json', 'redirect', 'form', 'upload-full', 'upload-rich', 'session',
+        'static-range', 'badjson', 'mp-noname', 'acct', 'st599s', 'user-me']
+
+
+def core_idx():
+    names = [k[0] for k in KINDS]
+    return [names.index(n) for n in CORE]
+
+
 def shards(tier, seed):
-    depth = 3 if tier == 'quick' else 4
     out = []
+    ci = core_idx()
     for a in range(NK):
         if tier == 'quick':
-            for b0 in range(0, NK, 7):
-                out.append(('seqs', (a,), depth, (b0, min(b0 + 7, NK))))
+            out.append(('seqs', (a,), 2))                  # every pair of kinds
         else:
-            for b in range(NK):
-                out.append(('seqs', (a, b), depth))
+            for b0 in range(0, NK, 7):
+                out.append(('seqs', (a,), 3, (b0, min(b0 + 7, NK))))      # every triple of kinds
         out.append(('growth', a, None))
+    for a in ci:
+        for b in ci:
+            if tier == 'quick':
+                out.append(('seqs', (a, b), 3))            # triples whose first two requests are core kinds
+            else:
+                for c3 in ci:
+                    out.append(('seqs', (a, b, c3), 4))    # quadruples whose first three requests are core kinds
     if tier == 'thorough':
         out += [('bfs', k, 6) for k in range(NK)]
     n = 2000 if tier == 'quick' else 5000
@@ -326,7 +368,9 @@ def shards(tier, seed):
 
 
 def bounds(tier, seed):
-    return {'kinds': [k[0] for k in KINDS], 'depth': '3 (all histories)' if tier == 'quick' else '4 (all histories) + BFS with state merging to depth 6', 'repeat_N': 2000 if tier == 'quick' else 5000,
+    return {'kinds': [k[0] for k in KINDS], 'core_kinds': CORE,
+            'depth': ('all histories of 2 requests; all of 3 whose first two are core kinds' if tier == 'quick' else
+                      'all histories of 3 requests; all of 4 whose first three are core kinds; BFS with state merging to depth 6'), 'repeat_N': 2000 if tier == 'quick' else 5000,
             'live_object_limit': 4}
 
 
